@@ -41,7 +41,9 @@ from .. import lib
 from ..lib import CheckResult, Violation
 
 NONE = 99
-PID = "C23"
+# scratch directory: private to this process (./check C23 is also run concurrently, e.g. against seeded worktrees, and
+# run.py removes .work/C23 when a run ends); removed at the end of run() unless VERIF_KEEP is set
+PID = f"C23.{os.getpid()}"
 
 # ============================================================================ construction API
 def _ident(tape):
@@ -1080,6 +1082,14 @@ def apply_judge(ctx, r, n_syn, viol):
 
 
 def run(tier, seed):
+    try:
+        return _run(tier, seed)
+    finally:
+        if not os.environ.get("VERIF_KEEP"):
+            lib.clean_work(PID)
+
+
+def _run(tier, seed):
     cov, viol = {}, []
     rng = random.Random(seed)
     W = int(os.environ.get("VERIF_TLC_WORKERS", "16"))
@@ -1173,7 +1183,11 @@ def replay(path, tier, seed):
         p, prev = newp, {"seq": obs["seq"], "mk": obs["mk"]}
     wd = lib.workdir(PID, "replay")
     (wd / "cases.json").write_text(json.dumps(cases))
-    r = edit_validate({"cases": cases, "wd": wd, "file": wd / "cases.json"})
+    try:
+        r = edit_validate({"cases": cases, "wd": wd, "file": wd / "cases.json"})
+    finally:
+        if not os.environ.get("VERIF_KEEP"):
+            lib.clean_work(PID)
     verd = {t[1] - 1: (t[2], t[3]) for t in r.tuples if t[0] == "V"}
     viol = []
     for i, c in enumerate(cases):
